@@ -213,7 +213,7 @@ def tlc_trace(ctx, cfg, module, trace_file, timeout=1800):
     return False, (last if last is not None else unmatched)
 
 
-def trace_core(ctx, prop, runs, reject=0):
+def trace_core(ctx, prop, runs, reject=0, large_every=None, fan_every=5):
     """impl -> spec: record random runs from the real crate, let TLC validate them against TraceCore
     (several single-worker TLC processes in parallel, one per trace chunk)."""
     from concurrent.futures import ThreadPoolExecutor
@@ -222,7 +222,9 @@ def trace_core(ctx, prop, runs, reject=0):
     if reject:
         s = hv(ctx, "record", trace=tf, runs=runs, chunks=chunks, reject=1)
     else:
-        s = hv(ctx, "record", trace=tf, runs=runs, chunks=chunks, large_every=(10 if ctx.quick else 15), fan_every=5)
+        if large_every is None:
+            large_every = 10 if ctx.quick else 15
+        s = hv(ctx, "record", trace=tf, runs=runs, chunks=chunks, large_every=large_every, fan_every=fan_every)
     files = [tf] if chunks == 1 else [f"{tf}.{c}" for c in range(chunks)]
     idx = s["extra"]["runs"]
 
@@ -244,7 +246,7 @@ def trace_core(ctx, prop, runs, reject=0):
             ev["proj"] = "<projection omitted>"
         os.makedirs(REPLAYS, exist_ok=True)
         rp = os.path.join(REPLAYS, f"{prop}-trace-seed{ctx.seed}-run{run['run']}.json")
-        json.dump({"cmd": "trace-core", "property": prop, "seed": ctx.seed, "run": run["run"], "large_every": (10 if ctx.quick else 15), "fan_every": 5, "reject": reject, "line": line_no, "event": ev,
+        json.dump({"cmd": "trace-core", "property": prop, "seed": ctx.seed, "run": run["run"], "large_every": large_every, "fan_every": fan_every, "reject": reject, "line": line_no, "event": ev,
                    "diffs": [f"recorded event at trace line {line_no} is not a step of the specification (TraceCore, focus {prop})"]}, open(rp, "w"), indent=1)
         ctx.violations.append(dict(property=prop, what=f"trace validation: event {ev.get('e')} of run {run['run']} rejected by the specification", replay=rp))
 
@@ -763,7 +765,30 @@ def check_C16(ctx):
     return finish(ctx)
 
 
-CHECKS = {"C16": check_C16, "C15": check_C15, "C17": check_C17, "C18": check_C18, "C11": check_C11, "C13": check_C13, "C12": check_C12, "C19": check_C19, "C20": check_C20, "C10": check_C10, "C09": check_C09, "C07": check_C07, "C08": check_C08, "C01": check_C01, "C02": check_C02, "C03": check_C03, "C04": check_C04, "C05": check_C05, "C06": check_C06}
+def check_C14(ctx):
+    ctx.rule = ("spec/HpoSub.tla defines sub_ontology as a nondeterministic function (refused iff a leaf is not the root or below it; retained terms = leaves + ONE shortest chain per leaf; induced links; "
+                "record kept iff directly annotated to a retained non-modifier term, then restricted to the retained direct terms; closure/inheritance/IC via ProjPure) and TLC checks SubSane for every "
+                "allowed result (root and leaves retained, only terms on shortest chains, original leaf-root distance, acyclic) on every acyclic relation over {1,2,3,118} (thorough: + every relation over "
+                "{1,118,2,3,4} compatible with that order), with and without the documented defaults, every root, every non-empty leaf set, with one gene per term, diseases on several terms and a "
+                "record without terms; it emits the reply and the SET of allowed results.  The harness builds the source through the Builder (3 id layouts) and through a binary file with obsolete/"
+                "replacement flags, calls sub_ontology (leaves as given; reversed + duplicated) and requires the error, or one of the allowed results compared through the whole read API (names, flags, "
+                "links, closure, records, inherited links, IC) and equal leaf-root distances.  impl->spec: random runs (6-16 and 52-70 terms; targeted multi-parent, modifier-root and "
+                "modifier-descendant leaves) are validated by TraceCore focus C14; non-trivial = an accepted call retaining >= 2 terms")
+    outs = [tlc(ctx, "mc/MC_Sub.cfg", "mc/MC_Sub.tla", workers=14, timeout=3000)["out"]]
+    if not ctx.quick:
+        outs.append(tlc(ctx, "mc/MC_Sub5.cfg", "mc/MC_Sub.tla", workers=14, timeout=6000)["out"])
+    s = hv(ctx, "replay-sub", prop="C14", **{"in": concat(ctx, outs, "c14-lines.txt")})
+    ctx.traces += s.get("cases", 0)
+    for k in ("must_be_refused", "several_allowed_results"):
+        ctx.extra[k] = s.get("counters", {}).get(k, 0)
+    # small runs only in the quick tier: validating a 52-70 term run with every conjunct of SubMatches costs TLC about a minute per run
+    trace_core(ctx, "C14", 96 if ctx.quick else 384, large_every=(0 if ctx.quick else 13), fan_every=0)
+    ctx.assumptions += ["'modifier term' is the crate's HpoTerm::is_modifier: the term is, or descends from, a modifier root; an ontology without the documented defaults has no modifier roots",
+                        "the hpo_version of the result is not constrained (the property does not mention it)"]
+    return finish(ctx)
+
+
+CHECKS = {"C14": check_C14, "C16": check_C16, "C15": check_C15, "C17": check_C17, "C18": check_C18, "C11": check_C11, "C13": check_C13, "C12": check_C12, "C19": check_C19, "C20": check_C20, "C10": check_C10, "C09": check_C09, "C07": check_C07, "C08": check_C08, "C01": check_C01, "C02": check_C02, "C03": check_C03, "C04": check_C04, "C05": check_C05, "C06": check_C06}
 
 
 def run_check(prop, tier, seed):
